@@ -101,6 +101,8 @@ class Elementwise:
         return "Elementwise({})".format(", ".join(repr(item) for item in self.items))
 
 
+found = None  # (a module global which some conditions re-bind with an assignment expression)
+y = -77  # (a leftover of a module-level loop: a global named like a loop variable of the generated comprehensions)
 G_STRICT = Strict(3)
 G_VECTOR = Elementwise(1, 2)
 
@@ -151,6 +153,8 @@ SHADOW_SETS = [
     {"a": "x"},
     {"a": "x", "b": "y"},
     {"b": "x", "n": "y"},
+    {"a": "x"},
+    {"b": "x"},
 ]
 
 
@@ -361,7 +365,7 @@ class Gen:
         if d >= self.max_depth:
             return "{} {} {}".format(self.int_leaf(), rng.choice(["<", "<=", ">", ">=", "==", "!="]), self.int_leaf())
         opts = ["cmp", "cmp", "chain", "and", "or", "not", "in_dict", "in_list", "all", "any", "strcmp", "isinst", "truth", "container_eq",
-                "all_value", "builtin_const"]
+                "all_value", "builtin_const", "walrus_over_global"]
         if self.env.with_none:
             opts += ["none_guard", "is_none"]
         if rng.random() < self.guarded_bias:
@@ -369,6 +373,11 @@ class Gen:
         k = rng.choice(opts)
         if k == "cmp":
             return "{} {} {}".format(self.int_expr(d + 1), rng.choice(["<", "<=", ">", ">=", "==", "!="]), self.int_expr(d + 1))
+        if k == "walrus_over_global" and self.has("walrus"):
+            # the target of the assignment expression also exists as a module global: inside the lambda it is a local from then on
+            return rng.choice(["((found := pick({xs}, 0, None)) is not None and found > {i})",
+                               "((found := {d}.get('k')) is not None and found + 1 > {i})",
+                               "((found := {xs}) and found[0] >= {i})"]).format(xs=self.list_expr(d + 1), d=self.n("d"), i=self.int_leaf())
         if k == "builtin_const":
             # built-ins which are values (neither functions nor classes): names of the builtins module all the same
             return rng.choice(["({i} is not NotImplemented and {b})", "({xs} is not Ellipsis and {b})", "((__debug__ or not __debug__) and {b})",
@@ -424,7 +433,17 @@ class Gen:
         rng = self.rng
         k = rng.choice(["one", "filter", "two", "attr", "truthy", "truthy_get", "guard_inside", "guard_inside2", "star_inside", "dstar_inside",
                         "star_comp_in_iter", "dependent_filters", "dependent_filters2", "filters_two_fors", "never_evaluated_dup_kw",
-                        "records", "rows", "never_evaluated_raises"])
+                        "records", "rows", "never_evaluated_raises", "displayed_loop_variable", "displayed_loop_variable"])
+        if k == "displayed_loop_variable":
+            # calls / subscripts of the LOOP variable (whose name may also be known in the enclosing scope: an argument, a global):
+            # only the values of the loop may ever be reported for them
+            return rng.choice([
+                "all(twice(x) > {i} for x in {xs})",
+                "all(twice(x) + twice(y) > {i} for x in {xs} for y in {xs2})",
+                "all(pick([x, {i}], 0) != {i2} for x in {xs})",
+                "all(twice(y) >= {i} for y in {xs})",
+                "len([twice(x) for x in {xs} if twice(x) > {i}]) > {i2}" if self.env.can_use("len") else "all(twice(x) > {i} for x in {xs})",
+            ]).format(i=self.int_leaf(), i2=self.int_leaf(), xs=self.list_expr(d + 1), xs2=self.n("xs"))
         if k == "never_evaluated_raises":
             # a part of the comprehension that Python never evaluates for these inputs (no item passes the filter / empty
             # iterable) and that raises an exception of its own when evaluated out of context
@@ -597,12 +616,18 @@ class Twin:
                 node = super().generic_visit(node)
                 if idx is None or not isinstance(node, ast.expr):
                     return node
-                if idx in twin.in_scope or idx in twin.in_fstring:
+                if idx in twin.in_fstring:
                     return node
                 if isinstance(getattr(node, "ctx", None), (ast.Store, ast.Del)):
                     return node
                 if isinstance(node, (ast.Constant, ast.GeneratorExp, ast.Starred, ast.Slice, ast.FormattedValue)):
                     return node
+                if idx in twin.in_scope:
+                    # inside a comprehension scope: the values of every iteration are kept in a table of their own (the
+                    # completeness rule speaks about sub-expressions OUTSIDE comprehension scopes)
+                    if isinstance(node, (ast.NamedExpr, ast.Lambda)):
+                        return node
+                    return ast.Call(func=ast.Name(id="__vk_rec_scope", ctx=ast.Load()), args=[ast.Constant(idx), node], keywords=[])
                 return ast.Call(func=ast.Name(id="__vk_rec", ctx=ast.Load()), args=[ast.Constant(idx), node], keywords=[])
 
         body = Rewriter().visit(ast.parse(self.text, mode="eval").body if False else self._fresh_copy())
@@ -615,6 +640,7 @@ class Twin:
         code = compile(mod, "<vk-twin>", "exec")
         ns = dict(module_globals)
         ns["__vk_rec"] = self._rec
+        ns["__vk_rec_scope"] = self._rec_scope
         ns["__vk_elt"] = self._elt
         exec(code, ns)  # pylint: disable=exec-used
         return ns["__vk_twin"]
@@ -629,6 +655,10 @@ class Twin:
         self.values.setdefault(idx, []).append(value)
         return value
 
+    def _rec_scope(self, idx: int, value: Any) -> Any:
+        self.scope_values.setdefault(idx, []).append(value)
+        return value
+
     def _elt(self, idx: int, value: Any, assignment: Any) -> Any:
         self.all_first_falsy[idx] = (value, assignment)
         return value
@@ -638,11 +668,22 @@ class Twin:
         if self._func is None:
             self._func = self._build(module_globals)
         self.values = {}  # type: Dict[int, List[Any]]
+        self.scope_values = {}  # type: Dict[int, List[Any]]
         self.all_first_falsy = {}  # type: Dict[int, Any]
         try:
             return False, self._func(**kwargs)
         except BaseException as err:  # pylint: disable=broad-except
             return True, err
+
+    def loop_variables(self) -> Set[str]:
+        """Names bound by the comprehensions of the expression."""
+        out = set()  # type: Set[str]
+        for node in ast.walk(self.root):
+            if isinstance(node, ast.comprehension):
+                for sub in ast.walk(node.target):
+                    if isinstance(sub, ast.Name):
+                        out.add(sub.id)
+        return out
 
     def texts_evaluated(self) -> Dict[str, List[Any]]:
         out = {}  # type: Dict[str, List[Any]]
